@@ -265,6 +265,8 @@ where
         assert!(out_n <= out.len());
 
         input.consume(n);
+        // Only tags of the samples actually consumed.
+        tags.retain(|t| t.pos() < n);
         if self.deci == 1 {
             out.produce(out_n, &tags);
         } else {
